@@ -16,7 +16,7 @@ RULE = ("call sets of 1-12 records x sample maps, each run (i) clean, non-strict
         "(strict and projection exclude each other on the command line). Compared with the model of the run: exit "
         "status, stdout (exact integers without projection, within 0.5e-6+1e-9*records with), the 'Skipped X/Y' summary, "
         "the contig:position named in the error, empty stdout on every failure. On the binary alone: total(stdout) + X "
-        "= Y = number of records. non-trivial = a run with a fault or with at least one skipped record")
+        "= Y = number of records. non-trivial = a run with a fault or with at least one skipped record; uncompressed BCF streams cut inside a record (1 byte or more into it) must fail with empty stdout")
 
 
 def check(rep, tier, seed):
@@ -59,6 +59,32 @@ def check(rep, tier, seed):
         vcf = render_vcf(cols, recs)
         cut = vcf[:len(vcf) - 1 - rng.randrange(1, 4)]
         jobs.append((["create"] + cli_samples_arg(sm), cut)); mcases.append(None); metas.append(("truncated-last-line", len(recs), None))
+    # an uncompressed BCF stream that ends inside a record (from its first byte on: inside the two length fields as well): the
+    # record is corrupt - the run must fail and print no spectrum, not report the records before it
+    import struct as _st
+    from callsets import bcf_encode_hts
+    tjobs = []
+    for k in range(3 if tier == "quick" else 25):
+        cols, recs = random_callset(rng, nsamples=rng.randrange(1, 6), nrecords=rng.randrange(2, 10), p_skip=0.1)
+        recs = [[g if g != "." else "./." for g in r] for r in recs]
+        b = bcf_encode_hts(render_vcf(cols, recs))
+        if b is None:
+            continue
+        pos = 9 + _st.unpack("<I", b[5:9])[0]
+        bounds = []
+        while pos < len(b):
+            ls, li = _st.unpack("<II", b[pos:pos + 8])
+            bounds.append((pos, 8 + ls + li)); pos += 8 + ls + li
+        for ri, (rp, rl) in enumerate(bounds):
+            for inside in sorted(set([1, 2, 3, 4, 7, 8, 9, 20, rl // 2, rl - 7, rl - 1])):
+                if 1 <= inside < rl:
+                    tjobs.append((["create"] + (["--strict"] if (ri + inside) % 4 == 0 else []), b[:rp + inside], "record %d of %d cut after %d of %d bytes" % (ri + 1, len(bounds), inside, rl)))
+    for (argv, data, what), (rc, so, se) in zip(tjobs, run_cli_many([(a, d_) for a, d_, _ in tjobs])):
+        rep.count("run-loop:truncated-bcf", what, True)
+        if rc == 0 or so != b"":
+            rep.fail(kind="property-oracle", cls="run-loop:truncated-bcf", case="uncompressed BCF, " + what, argv=["sfs"] + argv, stdin_hex=data.hex(),
+                     observed={"rc": rc, "stdout": so.decode(errors="replace")[:200], "stderr": se.decode(errors="replace")[-200:]}, expected="non-zero exit, empty stdout",
+                     detail="the stream ends in the middle of a record: a failing run, not a spectrum of the records before it")
     # cohorts at the factorial-table seam (170/171 chromosomes) and of several hundred samples, with projection: the
     # conservation law on the binary's own output (mass + skipped = records, all values finite)
     cons_jobs, cons_meta = [], []
